@@ -1,12 +1,12 @@
 #!/bin/bash
 # regress.sh [k n]: re-runs, for every confirmed seeded change (the k-th of every n), the checks recorded
-# as detecting it, and prints a line for each check that no longer does (REGRESSION) or patch that no longer applies.
+# as detecting it (only those also listed in REGRESS_IDS, when set), and prints a line for each check that no longer does (REGRESSION) or patch that no longer applies.
 k=${1:-0}; n=${2:-1}; i=0
 for d in /verif/seeded/*/; do
   name=$(basename $d); [ -f $d/meta.json ] || continue
   i=$((i+1)); [ $((i % n)) -eq $k ] || continue
-  ids=$(python3 -c "import json,sys; m=json.load(open('$d/meta.json')); print(' '.join(m.get('detected_by',[])))")
-  [ -n "$ids" ] || { echo "NEVER-DETECTED $name"; continue; }
+  ids=$(python3 -c "import json,sys; m=json.load(open('$d/meta.json')); only='$REGRESS_IDS'.split(); print(' '.join(x for x in m.get('detected_by',[]) if not only or x in only))")
+  [ -n "$ids" ] || { [ -n "$REGRESS_IDS" ] || echo "NEVER-DETECTED $name"; continue; }
   res=$(/verif/selftest $d/patch.diff $ids 2>&1)
   echo "$res" | grep -E "^(MISSED|SUITE-FAILS|PATCH-FAILS)" | sed "s/^/REGRESSION $name: /" | cut -c1-200
   echo "$res" | grep -qE "^DETECTED" && echo "ok $name: $(echo "$res" | grep -cE '^DETECTED') of $(echo $ids | wc -w)"
